@@ -203,4 +203,20 @@ META["C16"] = {
     "assumptions": ["histories bounded: <= 14 steps"],
 }
 
+META["C07"] = {
+    "level": "exploration",
+    "level_text": "Bounded contract check on the real code with inspect.Signature.bind as the "
+    "independent oracle: every signature with 0..3 parameters x every trailing-default subset x every "
+    "call shape Python accepts (and shapes missing a required parameter), at lambda depth 0..2, with "
+    "one method name shared by three classes with different defaults and re-used lambda parameter "
+    "names, for methods and func_adl_callable functions; stream operators keep their arguments. "
+    "(The deductive proof of the filler's loop invariant planned in DESIGN §4 C07 is not in this "
+    "build yet.)",
+    "level_note": "Bounded stand-in; nothing counted as proved.",
+    "technique": "bounded contract check of the _fill_in_default_arguments / remap_by_types contract against inspect.Signature.bind (labelled stand-in for the planned loop-invariant proof)",
+    "p_keys": False,
+    "explanation": "bounded only",
+    "assumptions": ["signatures bounded to <= 3 parameters, nesting depth <= 2"],
+}
+
 NOT_APPLICABLE = {}
